@@ -49,6 +49,9 @@ type Lemma struct {
 	Uses     []string
 	NoInst   bool
 	Bitvec   bool
+	Splits   [][]string // case splits: each entry lists alternatives; the cross product gives sub-obligations
+	Bounded  string     // non-empty: the lemma is a bounded stand-in (text = the bound)
+	Tier     string     // "thorough": only checked in the thorough tier
 }
 
 type KnownCarve struct {
@@ -124,7 +127,7 @@ func LoadSpecs(dir, pkgPath, pkgName string) (*Specs, error) {
 	var last *string // for continuation lines
 	keywords := map[string]bool{"opaque": true, "pred": true, "lemma": true, "vars": true, "unfold": true, "requires": true, "ensures": true,
 		"export": true, "property": true, "func": true, "known": true, "loop": true, "invariant": true, "decreases": true, "modifies": true,
-		"pure": true, "trusted": true, "assert": true, "pattern": true, "uses": true, "noinst": true, "bitvector": true}
+		"pure": true, "trusted": true, "assert": true, "pattern": true, "uses": true, "noinst": true, "bitvector": true, "split": true, "bounded": true, "tier": true}
 	for ln, l := range lines {
 		f := strings.Fields(l)
 		if len(f) == 0 {
@@ -190,6 +193,18 @@ func LoadSpecs(dir, pkgPath, pkgName string) (*Specs, error) {
 		case "uses":
 			if curL != nil {
 				curL.Uses = append(curL.Uses, strings.Fields(rest)...)
+			}
+		case "split":
+			if curL != nil {
+				curL.Splits = append(curL.Splits, splitTop(rest, '|'))
+			}
+		case "tier":
+			if curL != nil {
+				curL.Tier = rest
+			}
+		case "bounded":
+			if curL != nil {
+				curL.Bounded = rest
 			}
 		case "noinst":
 			if curL != nil {
